@@ -695,6 +695,11 @@ impl<TStorage: ?Sized + AsyncReadableStorageTraits + 'static> Array<TStorage> {
                                 .await?;
                         }
                         unsafe { output.set_len(size_output) };
+                        #[cfg(zarrs_verif)]
+                        crate::storage::verif_hooks::emit(
+                            "view.publish",
+                            &[output.as_ptr() as u64, output.len() as u64],
+                        );
                         Ok(ArrayBytes::from(output))
                     }
                 }
